@@ -114,6 +114,7 @@ func runC16(c *core.Ctx) {
 	}
 
 	typeNames(c)
+	typeOfPure(c)
 	combinatorOps(c)
 	appendDiscipline(c)
 	unitDiscipline(c)
